@@ -139,6 +139,16 @@ func run(res *core.CaseResult, spec gen.SchemaSpec, v veto, hist []gen.Op) *seq.
 // is about to call - a user mutation that looks like the auto one and must
 // neither replace nor suppress it.
 func runInj(res *core.CaseResult, spec gen.SchemaSpec, v veto, hist []gen.Op, inject bool) *seq.Mach {
+	return runFault(res, spec, v, hist, inject, "")
+}
+
+// runFault: with faultAt, the handler of that name panics the first time it is
+// called inside an auto transition. The faulted transition itself is not
+// judged; the Exception that follows is an accepted state-changing mutation
+// like any other, so the next transition has to be the auto mutation again.
+func runFault(res *core.CaseResult, spec gen.SchemaSpec, v veto, hist []gen.Op, inject bool, faultAt string) *seq.Mach {
+	faulted := map[string]bool{}
+	fired := false
 	mc, _ := seq.New(spec, seq.MachOpts{})
 	m := mc.M
 	names := rec.AllHandlerNames(gen.Sorted(spec.Names))
@@ -170,6 +180,14 @@ func runInj(res *core.CaseResult, spec gen.SchemaSpec, v veto, hist []gen.Op, in
 				}
 			}
 		}
+		if faultAt != "" && c.Name == faultAt && !fired {
+			if tx := e.Transition(); tx != nil && tx.IsAuto() {
+				fired = true
+				faulted[e.TransitionId] = true
+				res.Count("handler_panics_inside_auto_transitions", 1)
+				panic("c07 fault")
+			}
+		}
 		return !v[c.Name]
 	})
 	defer m.Dispose()
@@ -191,6 +209,17 @@ func runInj(res *core.CaseResult, spec gen.SchemaSpec, v veto, hist []gen.Op, in
 	}
 	for i, tx := range txs {
 		res.Evals++
+		if faulted[tx.TxId] {
+			continue
+		}
+		// a transition flagged auto calls Auto states only
+		if tx.IsAuto {
+			for _, st := range tx.Called {
+				if !schema[st].Auto {
+					res.Violate("C07/auto-calls-non-auto-state", fmt.Sprintf("a transition flagged as an auto mutation called %s, which is not an Auto state (called %v)", st, tx.Called), ctx(i))
+				}
+			}
+		}
 		changed := !rec.TimeEq(tx.Before, tx.After)
 		var next *rec.TxRec
 		if i+1 < len(txs) {
@@ -227,7 +256,7 @@ func runInj(res *core.CaseResult, spec gen.SchemaSpec, v veto, hist []gen.Op, in
 			} else if next != nil && next.IsAuto {
 				res.Violate("C07/auto-without-candidates", "an auto mutation ran although no Auto state was eligible", ctx(i))
 			}
-		} else if next != nil && next.IsAuto {
+		} else if next != nil && next.IsAuto && !faulted[next.TxId] {
 			why := "an unchanged / canceled / check / health transition"
 			if tx.IsAuto {
 				why = "an auto mutation"
@@ -427,6 +456,10 @@ func (eng) Run(c core.CaseDesc, tier string) *core.CaseResult {
 	for _, p := range ap {
 		run(res, spec, veto{p: true}, hist)
 		res.Count("single_auto_veto_runs", 1)
+	}
+	// a one-shot panic in each of those handlers, inside an auto transition
+	for _, p := range ap {
+		runFault(res, spec, veto{}, hist, false, p)
 	}
 	// the same with look-alike user mutations queued from handlers
 	runInj(res, spec, veto{}, hist, true)
